@@ -32,7 +32,7 @@ fn pv(s: &str) -> Vec<String> {
 pub fn run(out_dir: &Path) -> Value {
     let cx = Conc::new("fixture", 1);
     // universe: every embedded file and implied directory, absent siblings, prefixes/extensions of names, paths below files
-    let universe: Vec<Vec<String>> = ["a", "b", "c", "d", "e", "f", "a/a", "b/a", "b/b", "b/d", "b/e", "b/f", "d/a", "d/e", "d/f", "c/a", "b/d/c", "b/d/a", "b/a/a", "d/e/a", "d/f/e"]
+    let universe: Vec<Vec<String>> = ["a", "b", "c", "d", "e", "f", "a/a", "b/a", "b/b", "b/d", "b/e", "b/f", "d/a", "d/e", "d/f", "c/a", "d/b", "b/d/c", "b/d/a", "b/d/e", "b/a/a", "d/e/a", "d/f/e", "d/b/a", "d/b/b"]
         .iter().map(|s| pv(s)).collect();
     let tmp = crate::cfg::fresh_tmp();
     let fixture_dir = Path::new(env!("CARGO_MANIFEST_DIR")).join("fixtures/emb");
